@@ -226,7 +226,7 @@ def main():
             print('  %s/%s at %s: %s' % (r['rule'], r['instance'], r['where'], r['msg']))
             if r['detail']:
                 print('  detail: %s' % json.dumps(r['detail'], default=str)[:1500])
-        code = 1 if code == 0 else code
+        code = 1        # a violation takes precedence over analysis-broken instances
     wall = time.time() - t0
     if not only:
         expl = getattr(mod, 'EXPLANATION', '')
